@@ -177,6 +177,11 @@ func UnzipToFolder(zipFile, destDir string) error {
 			continue
 		}
 
+		// the entry must stay inside destDir ("zip slip"): names like ../x are rejected
+		if rel, err := filepath.Rel(destDir, filepath.Join(destDir, z.Name)); err != nil || rel == ".." || strings.HasPrefix(rel, ".."+string(filepath.Separator)) {
+			return fmt.Errorf("UnzipToFolder: the file name \"%s\" in the ziputil archive points outside of %s", z.Name, destDir)
+		}
+
 		partPath, _ := filepath.Split(z.Name)
 		destPath := filepath.Join(destDir, partPath)
 		if !pathChecked[destPath] {
